@@ -322,6 +322,54 @@ def guid_tree(kind, x):
     return out
 
 
+def _seq(fn):
+    try:
+        return str(fn())
+    except Exception as e:  # noqa
+        return "!" + type(e).__name__
+
+
+def seq_tree(kind, x):
+    """sequences of the object and of every member, in the order of gen_c08.expected_sequences: a leaf reports its
+    spliced sequence (a transcript also its CDS blocks' sequence), a collection its reference (span) sequence"""
+    if kind == "tx":
+        out = [_seq(x.get_spliced_sequence)]
+        if x._cds_frames is not None:
+            out.append(_seq(x.cds.get_spliced_sequence) if x.cds else "")
+        return out
+    if kind in ("cds", "feat", "var"):
+        return [_seq(x.get_spliced_sequence)]
+    out = [_seq(x.get_reference_sequence) if kind != "ac" else None]
+    if kind == "gene":
+        kids = [("tx", c) for c in x.transcripts]
+    elif kind == "fc":
+        kids = [("feat", c) for c in x.feature_intervals]
+    elif kind == "vc":
+        kids = [("var", c) for c in x.variant_intervals]
+    else:
+        kids = ([("gene", c) for c in x.genes] + [("fc", c) for c in x.feature_collections]
+                + [("vc", c) for c in x.variant_collections])
+    for k, c in kids:
+        out += seq_tree(k, c)
+    return out
+
+
+def seq_matches(obs, exp):
+    """observed member sequences against the brute-force expectation; an empty expectation (nothing inside the
+    window) may be reported as an empty string or as an exception"""
+    if len(obs) != len(exp):
+        return False
+    for o, e in zip(obs, exp):
+        if e is None:
+            continue
+        if e == "":
+            if not (o == "" or (o or "").startswith("!")):
+                return False
+        elif o != e:
+            return False
+    return True
+
+
 def seq_of(x):
     """the sequence the object sees (when it has one)"""
     try:
@@ -349,6 +397,10 @@ def same_object(kind, x, y, viol, tag, with_seq=True):
             viol.append(tag + ":hash")
         if with_seq and seq_of(x) != seq_of(y):
             viol.append(tag + ":sequence")
+        if with_seq and seq_tree(kind, x) != seq_tree(kind, y):
+            viol.append(tag + ":member-sequences")
+        if kind == "ac" and with_seq and x._parent_to_dict() != y._parent_to_dict():
+            viol.append(tag + ":parent-dict")
     except Exception as e:  # noqa
         viol.append(f"{tag}:compare-raises-{type(e).__name__}")
 
@@ -361,7 +413,7 @@ def facts_of(kind, d, ps):
         f.append("vc=" + ("1" if d["variant_collections"] else "0"))
     if kind in ("vc",):
         f.append("vc=1")
-    if ps["kind"] == "chunk":
+    if ps["kind"] in ("chunk", "chunkrev"):
         f.append(f"cs={ps['chunk'][0]}")
         f.append("window=" + ps["window"])
     return ";".join(f)
@@ -377,6 +429,23 @@ def clauses(kind, pk, seed, profile):
     viol = []
     cls = L["CLS"][kind]
     rng = random.Random(f"{kind}|{pk}|{seed}|{profile}|clauses")
+
+    # (s) member sequences against brute-force expectations from the plain genome string
+    exp = G8.expected_sequences(kind, d, ps)
+    try:
+        obs = seq_tree(kind, x)
+        if not seq_matches(obs, exp):
+            viol.append("s:sequences-differ-from-genome")
+    except Exception as e:  # noqa
+        viol.append(f"s:raises-{type(e).__name__}")
+        obs = None
+
+    def check_seq(y, tag):
+        try:
+            if not seq_matches(seq_tree(kind, y), exp):
+                viol.append(tag + ":sequences-differ-from-genome")
+        except Exception as e:  # noqa
+            viol.append(f"{tag}:sequences-raise-{type(e).__name__}")
 
     # (a) to_dict -> from_dict (same parent handed in)
     dd = None
@@ -406,6 +475,7 @@ def clauses(kind, pk, seed, profile):
             de = x.to_dict(export_parent=True)
             y = cls.from_dict(de)
             same_object(kind, x, y, viol, "a2")
+            check_seq(y, "a2")
             y = cls.from_dict(revive(kind, jd(de)))
             same_object(kind, x, y, viol, "a2j")
         except Exception as e:  # noqa
@@ -432,6 +502,7 @@ def clauses(kind, pk, seed, profile):
                 m2 = M.Schema().load(jd(M.Schema().dump(m)))
                 y = m2.to_annotation_collection()
                 same_object(kind, x, y, viol, "b3")
+                check_seq(y, "b3")
             except Exception as e:  # noqa
                 viol.append(f"b3:raises-{type(e).__name__}")
     # (c) pickle (AnnotationCollection.__getstate__/__setstate__)
@@ -439,8 +510,7 @@ def clauses(kind, pk, seed, profile):
         try:
             y = pickle.loads(pickle.dumps(x))
             same_object(kind, x, y, viol, "c")
-            if dd is not None and y._parent_to_dict() != x._parent_to_dict():
-                viol.append("c:parent")
+            check_seq(y, "c")
         except Exception as e:  # noqa
             viol.append(f"c:raises-{type(e).__name__}")
     # (d) insertion orders (in-process part of the determinism clause)
